@@ -99,13 +99,24 @@ def kswin_case(out: Outcome, rng, p: dict, xs: list, runners: list) -> None:
     d = run.det
     np.random.seed(rng.randint(0, 2**31 - 1))
     fired = False
-    for t, x in enumerate(xs, 1):
+    cur: list = []          # the values since the last reset() ("r" in the stream): the window rule restarts there
+    for step, x in enumerate(xs, 1):
+        rep = {"class": "KSWIN", "params": p, "stream": xs[:step], "step": step}
+        if x == "r":
+            run.reset()
+            cur = []
+            out.count("kswin_resets_inside_streams")
+            if len(d.window) != 0 or d.drift:
+                out.violation(f"KSWIN: after reset() the window holds {len(d.window)} values, drift={bool(d.drift)}", rep)
+                break
+            continue
         run.update(x)
-        rep = {"class": "KSWIN", "params": p, "stream": xs[:t], "step": t}
+        cur.append(x)
+        t = len(cur)
         if run.err is not None:
             out.violation(f"KSWIN: update raised {type(run.err).__name__}: {run.err}", rep)
             break
-        want_win = xs[max(0, t - W): t]
+        want_win = cur[max(0, t - W): t]
         if [float(v) for v in d.window] != [float(v) for v in want_win]:
             out.violation(f"KSWIN: window does not hold exactly the last min(t, {W}) values at step {t}", rep)
             break
@@ -161,6 +172,17 @@ def kswin_case(out: Outcome, rng, p: dict, xs: list, runners: list) -> None:
                 out.count("kswin_steps_decided_independently_of_sample" if (all(q <= alpha for q in ps) or all(q > alpha for q in ps)) else "kswin_steps_sample_dependent")
     runners.append(run)
     out.case({"class": "KSWIN", "params": p, "n": len(xs), "h": hash(tuple(xs)) & 0xFFFFFF}, nontrivial=fired)
+
+
+def with_resets(rng, xs: list, W: int) -> list:
+    """update ... reset() ... update: a reset somewhere, then more than W further values so that the window must fill, stay at W values and slide again"""
+    k = rng.randint(1, len(xs))
+    tail = [rng.gauss(rng.choice([0.0, 2.0]), 1.0) for _ in range(W + rng.randint(2, W + 5))]
+    ys = xs[:k] + ["r"] + tail
+    if rng.random() < 0.4:
+        ys.insert(rng.randint(k + 1, len(ys)), "r")
+        ys += [rng.gauss(0.0, 1.0) for _ in range(W + 3)]
+    return ys
 
 
 def kswin_seed_case(out: Outcome, rng, seed, xs: list) -> None:
@@ -265,7 +287,10 @@ def run(out: Outcome) -> None:
         p = gen.rand_params(rng, "KSWIN")
         if not p:
             p = {"alpha": 0.01, "min_num_instances": 20, "num_test_instances": 5}
-        kswin_case(out, rng, p, gen.real_stream(rng, rng.randint(p["min_num_instances"], 4 * p["min_num_instances"] + 20)), runners)
+        xs = gen.real_stream(rng, rng.randint(p["min_num_instances"], 4 * p["min_num_instances"] + 20))
+        if _ % 3 == 0:
+            xs = with_resets(rng, xs, p["min_num_instances"])
+        kswin_case(out, rng, p, xs, runners)
     for i in range(16 if thorough else 6):
         p = gen.rand_params(rng, "KSWIN") or {"alpha": 0.01, "min_num_instances": 20, "num_test_instances": 5}
         if i % 2 == 0:
